@@ -593,11 +593,11 @@ pub fn gen_case(rng: &mut Rng) -> Case {
             }
             // a helper module next to it, found relative to the module file
             let leaf_tag = g.tag(&format!("{subdir}/leaf.jq"));
-            g.put(FileSpec::file(lex_join(&subdir, "leaf.jq"), format!("def leaf: \"{leaf_tag}\";\n"), 0o644));
+            g.put(FileSpec::file(lex_join(&subdir, "leaf.jq"), format!("def leaf: \"{leaf_tag}\";\ndef which: \"{leaf_tag}\";\n"), 0o644));
             header.push_str(&format!("include \"leaf\" {{search: \"{sub}\"}};\n"));
             g.put(FileSpec::file(
                 lex_join(&dir, "na.jq"),
-                format!("{header}def who_a: [{}, leaf];\n", parts.join(", ")),
+                format!("{header}def who_a: [{}, leaf, which];\n", parts.join(", ")),
                 0o644,
             ));
             // the main program has data imports of its own, relative to its own location
@@ -616,7 +616,7 @@ pub fn gen_case(rng: &mut Rng) -> Case {
             // a *different* module of the same file name, found from the main program's side:
             // two files called leaf.jq are two modules (load-once is per file, not per name)
             let leafm_tag = g.tag(&format!("{}/mdir/leaf.jq", parent_dir));
-            g.put(FileSpec::file(lex_join(&lex_join(parent_dir, "mdir"), "leaf.jq"), format!("def leafm: \"{leafm_tag}\";\n"), 0o644));
+            g.put(FileSpec::file(lex_join(&lex_join(parent_dir, "mdir"), "leaf.jq"), format!("def leafm: \"{leafm_tag}\";\ndef which: \"{leafm_tag}\";\n"), 0o644));
             let same_file = lex_join(&lex_join(parent_dir, "mdir"), "leaf.jq") == lex_join(&subdir, "leaf.jq");
             // ... and a third one in the library directory, asked for *without* metadata after the
             // other two have been loaded: it is found through the library paths, whatever was
@@ -625,20 +625,22 @@ pub fn gen_case(rng: &mut Rng) -> Case {
             let lib_distinct = lib_leaf != lex_join(&subdir, "leaf.jq") && lib_leaf != lex_join(&lex_join(parent_dir, "mdir"), "leaf.jq") && !same_file;
             let leafl_tag = g.tag(&lib_leaf);
             if lib_distinct {
-                g.put(FileSpec::file(lib_leaf.clone(), format!("def leafl: \"{leafl_tag}\";\n"), 0o644));
+                g.put(FileSpec::file(lib_leaf.clone(), format!("def leafl: \"{leafl_tag}\";\ndef which: \"{leafl_tag}\";\n"), 0o644));
             }
             let inc = "include \"na\";\n";
             let inc2 = if same_file { "" } else { "include \"leaf\" {search: \"mdir\"};\n" };
             let leafm = if same_file { "null".to_string() } else { "leafm".to_string() };
-            let (inc3, leafl) = if lib_distinct { ("include \"leaf\";\n", "leafl".to_string()) } else { ("", "null".to_string()) };
+            // all three define `which`: inside `na` it is the one `na` included; in the main program
+            // the one included last (asked for only when that is the library's, in either order)
+            let (inc3, leafl) = if lib_distinct { ("include \"leaf\";\n", "leafl, which".to_string()) } else { ("", "null, null".to_string()) };
             prog = if before {
                 format!("{mh}{inc}{inc2}{inc3}[who_a, {}, {leafm}, {leafl}]", mparts.join(", "))
             } else {
                 format!("{inc2}{inc}{inc3}{mh}[who_a, {}, {leafm}, {leafl}]", mparts.join(", "))
             };
             let leafm_out = if same_file { "null".to_string() } else { format!("\"{leafm_tag}\"") };
-            let leafl_out = if lib_distinct { format!("\"{leafl_tag}\"") } else { "null".to_string() };
-            let expected = format!("[[{},\"{leaf_tag}\"],{},{leafm_out},{leafl_out}]\n", exp_mod.join(","), exp_main.join(","));
+            let leafl_out = if lib_distinct { format!("\"{leafl_tag}\",\"{leafl_tag}\"") } else { "null,null".to_string() };
+            let expected = format!("[[{},\"{leaf_tag}\",\"{leaf_tag}\"],{},{leafm_out},{leafl_out}]\n", exp_mod.join(","), exp_main.join(","));
             directives.push(Directive {
                 kind: "nested".into(),
                 name: expected,
